@@ -66,7 +66,9 @@ def _text_ops(w):
 
 
 PAGE_OPS = [b'SCREEN ,,1,0', b'SCREEN ,,0,1', b'SCREEN ,,1,1', b'SCREEN ,,0,0', b'PCOPY 0,1', b'PCOPY 1,0']
-GFX_OPS = [b'PSET (5,5),1', b'LINE (3,3)-(20,12),1,BF', b'GET (0,0)-(9,9),A%:PUT (13,30),A%,XOR']
+# (the 4x4 block is smaller than a character cell but lies across the corner of four cells, with 8- and with 14-line fonts)
+GFX_OPS = [b'PSET (5,5),1', b'LINE (3,3)-(20,12),1,BF', b'GET (0,0)-(9,9),A%:PUT (13,30),A%,XOR',
+           b'LINE (6,13)-(9,16),1,BF']
 
 CONFIGS = {
     'cga-t80': dict(kw={'video': 'cga'}, setup=[b'WIDTH 80'],
@@ -304,6 +306,8 @@ def opclass(stmt):
         return 'SCREEN-page'
     if s.startswith('GET'):
         return 'PUT'
+    if s.startswith('LINE (6,13)'):
+        return 'LINE-across-cells'
     if s.startswith('VIEW PRINT'):
         return 'VIEW-PRINT' + ('-set' if len(s) > 10 else '-reset')
     if 'INPUT' in s:
